@@ -79,7 +79,7 @@ impl Wake for CommandWaker {
             "wake",
             Arc::as_ptr(&self.parent_waker) as usize,
             self.task_id.0,
-            0,
+            Arc::as_ptr(self) as usize,
             0,
         );
         #[cfg(crux_verif)]
@@ -245,7 +245,13 @@ impl<Effect, Event> Command<Effect, Event> {
         #[cfg(crux_verif)]
         crate::verif::point("ct_poll");
         #[cfg(crux_verif)]
-        crate::verif::ev("poll", Arc::as_ptr(&self.waker) as usize, task_id.0, 0, 0);
+        crate::verif::ev(
+            "poll",
+            Arc::as_ptr(&self.waker) as usize,
+            task_id.0,
+            Arc::as_ptr(&arc_waker) as usize,
+            0,
+        );
 
         let result = match task.future.as_mut().poll(context) {
             Poll::Pending => TaskState::Suspended,
